@@ -20,7 +20,7 @@ for c in CLAIMS['claimed']:
     })
 m = {
     'version': 1,
-    'setup_cmd': PY + ' -c "import lark, networkx, ast, sys; sys.path.insert(0, \'.\'); import hv.check"',
+    'setup_cmd': PY + ' -c "import lark, networkx, numpy, ast, sys; sys.path.insert(0, \'.\'); import hv.check"',
     'hooks': {'guard': 'PY4HW_VERIF', 'enable': 'none needed: the checks only read /repo source text; no hook is compiled into py4hw',
               'baseline_off_cmd': 'cd /repo && /venv/bin/python -m pytest -ra -q -p no:cacheprovider --timeout=900 --continue-on-collection-errors',
               'source_commits': [], 'add_only': True},
